@@ -522,40 +522,43 @@ def activation_scope_follows_the_specifier(ctx):
     WITHOUT registers the connection for everything; a specifier with ':' is split into module and parameter; in the snapshot
     loop a parameter scope sends that one parameter, a module scope every accessible that is an exported Parameter"""
     m = ctx.m
-    f = _act(m)
-    ctx.analysed(f)
-    cfg = CFG(f.node, m, f.module)
-    sub = {i for c in calls_in(f.node) if call_attr(c) == 'subscribe' for i in cfg.node_of(c)}
-    glob = {i for c in calls_in(f.node) if call_attr(c) == 'add' and '_active_connections' in src(c.func) for i in cfg.node_of(c)}
-    sends = _snapshot_sends(f, m)
-    one = {i for c in sends if any(isinstance(x, ast.Subscript) and src(x.slice) == 'pname' for x in ast.walk(c)) for i in cfg.node_of(c)}
-    many = {i for c in sends if not any(isinstance(x, ast.Subscript) and src(x.slice) == 'pname' for x in ast.walk(c)) for i in cfg.node_of(c)}
-    split = {i for n in body_walk(f.node) if isinstance(n, ast.Assign) and isinstance(n.value, ast.Call) and call_attr(n.value) == 'split' and "':'" in src(n.value)
-             for i in cfg.node_of(n)}
+    f0 = _act(m)
+    owners = {id(o): o for c, o, site in _snapshot_sends_deep(m, f0)}
+    units = [f0] + [o for o in owners.values() if o is not f0]
     n = 0
-    for t in cfg.nodes:
-        if t.kind != 'test':
-            continue
-        core, on, off = _sides(cfg, t)
-        s = src(core)
-        if s == 'specifier' and (sub or glob) and t.id not in cfg.reach(list(sub | glob)):
-            n += 1
-            ok = sub <= on and not (sub & off - on) and glob <= off and not (glob & on - off)
-            ctx.check(ok, f'{f.qualname}:scoped request registers its scope, unscoped one everything', t.ast, 'subscribe on the specifier side, the active set on the other',
-                      f'`{src(t.ast)}`: `activate` without specifier registers a scope named None and `activate mod` activates everything', f)
-        if s == "':' in specifier" and split:
-            n += 1
-            ctx.check(split <= on and not (split & off - on), f'{f.qualname}:module:parameter specifier is split', t.ast, 'split on the side with a colon',
-                      f'`{src(t.ast)}`: the specifier is split only when it holds no colon', f)
-        if s == 'pname' and one and many:
-            n += 1
-            ok = one <= on and not (one & off - on) and bool(many & off)
-            ctx.check(ok, f'{f.qualname}:parameter scope sends that parameter, module scope all', t.ast, 'single send on the pname side',
-                      f'`{src(t.ast)}`: a parameter scope gets the snapshot of the whole module and a module scope fails on parameters[None]', f)
-        if 'Parameter' in s and '.export' in s and isinstance(core, ast.BoolOp):
-            n += 1
-            ok = many <= on and not (many & off - on)
-            ctx.check(ok, f'{f.qualname}:snapshot sends the exported parameters', t.ast, 'send on the true side of the predicate',
-                      f'`{src(t.ast)}`: the snapshot sends exactly the accessibles that are NOT exported parameters (commands have no value: AttributeError)', f)
+    for f in units:
+        ctx.analysed(f)
+        cfg = CFG(f.node, m, f.module)
+        sub = {i for c in calls_in(f.node) if call_attr(c) == 'subscribe' for i in cfg.node_of(c)}
+        glob = {i for c in calls_in(f.node) if call_attr(c) == 'add' and '_active_connections' in src(c.func) for i in cfg.node_of(c)}
+        sends = _snapshot_sends(f)
+        one = {i for c in sends if any(isinstance(x, ast.Subscript) and src(x.slice) == 'pname' for x in ast.walk(c)) for i in cfg.node_of(c)}
+        many = {i for c in sends if not any(isinstance(x, ast.Subscript) and src(x.slice) == 'pname' for x in ast.walk(c)) for i in cfg.node_of(c)}
+        split = {i for x in body_walk(f.node) if isinstance(x, ast.Assign) and isinstance(x.value, ast.Call) and call_attr(x.value) == 'split' and "':'" in src(x.value)
+                 for i in cfg.node_of(x)}
+        for t in cfg.nodes:
+            if t.kind != 'test':
+                continue
+            core, on, off = _sides(cfg, t)
+            s = src(core)
+            if s == 'specifier' and (sub or glob) and t.id not in cfg.reach(list(sub | glob)):
+                n += 1
+                ok = sub <= on and not (sub & off - on) and glob <= off and not (glob & on - off)
+                ctx.check(ok, f'{f.qualname}:scoped request registers its scope, unscoped one everything', t.ast, 'subscribe on the specifier side, the active set on the other',
+                          f'`{src(t.ast)}`: `activate` without specifier registers a scope named None and `activate mod` activates everything', f)
+            if s == "':' in specifier" and split:
+                n += 1
+                ctx.check(split <= on and not (split & off - on), f'{f.qualname}:module:parameter specifier is split', t.ast, 'split on the side with a colon',
+                          f'`{src(t.ast)}`: the specifier is split only when it holds no colon', f)
+            if s == 'pname' and one and many:
+                n += 1
+                ok = one <= on and not (one & off - on) and bool(many & off)
+                ctx.check(ok, f'{f.qualname}:parameter scope sends that parameter, module scope all', t.ast, 'single send on the pname side',
+                          f'`{src(t.ast)}`: a parameter scope gets the snapshot of the whole module and a module scope fails on parameters[None]', f)
+            if 'Parameter' in s and '.export' in s and isinstance(core, ast.BoolOp):
+                n += 1
+                ok = many <= on and not (many & off - on)
+                ctx.check(ok, f'{f.qualname}:snapshot sends the exported parameters', t.ast, 'send on the true side of the predicate',
+                          f'`{src(t.ast)}`: the snapshot sends exactly the accessibles that are NOT exported parameters (commands have no value: AttributeError)', f)
     if n < 3:
         raise AnchorMissing('scope tests of handle_activate not found (specifier / pname / snapshot predicate)')
